@@ -52,6 +52,13 @@ class _RedisConsumer(ConsumerT):
         self._taken: tuple[str, str] | None = None  # short message name, full queue name
         self._take_task: asyncio.Future[bool] | None = None
         self._in_hand: RoutingKeyT | None = None
+        # a message returned by `consume()` to a caller which was cancelled before receiving it:
+        # handed out first by the next `consume()`, given back by `finish()`
+        self._undelivered: tuple[RoutingKeyT, str, ParametersT] | None = None
+        self.consume.on_undelivered_result = self._keep_undelivered  # type: ignore[attr-defined]
+
+    def _keep_undelivered(self, msg: tuple[RoutingKeyT, str, ParametersT]) -> None:
+        self._undelivered = msg
 
     async def start(self) -> None:
         self.consume_task = asyncio.create_task(self.backgroud_consume())
@@ -87,6 +94,9 @@ class _RedisConsumer(ConsumerT):
         if self._in_hand is not None:
             rejects.append(self.broker.reject(self._in_hand))
             self._in_hand = None
+        if self._undelivered is not None:
+            rejects.append(self.broker.reject(self._undelivered[0]))
+            self._undelivered = None
         while self.queue.qsize() > 0:
             key, _, _ = self.queue.get_nowait()
             rejects.append(self.broker.reject(key))
@@ -94,7 +104,10 @@ class _RedisConsumer(ConsumerT):
 
     async def consume(self) -> tuple[RoutingKeyT, str, ParametersT]:
         while True:
-            msg = await self.queue.get()
+            if self._undelivered is not None:
+                msg, self._undelivered = self._undelivered, None
+            else:
+                msg = await self.queue.get()
             # a message may have expired while it was waiting in the local buffer
             if self.category == MessageCategory.NORMAL and msg[2].is_overdue:
                 # the message has left the buffer: its dead-lettering runs to its end even if
